@@ -37,7 +37,8 @@ Pairs == {e \in Nodes \X Nodes : e[1] # e[2]}
 DAGs == IF Ordered THEN SUBSET {e \in Pairs : e[1] > e[2]} ELSE {c \in SUBSET Pairs : Acyclic(c)}
 IsTree(c) == \A n \in Nodes : Cardinality({e \in c : e[1] = n}) <= 1
 
-SetSeq(S) == CHOOSE s \in [1..Cardinality(S) -> S] : \A i, j \in 1..Cardinality(S) : i < j => s[i] # s[j]
+RECURSIVE SetSeq(_)
+SetSeq(S) == IF S = {} THEN <<>> ELSE LET x == CHOOSE x \in S : TRUE IN <<x>> \o SetSeq(S \ {x})
 EdgeList(c) == LET s == SetSeq(c) IN [i \in DOMAIN s |-> <<s[i][1], s[i][2]>>]
 
 Init ==
